@@ -161,9 +161,21 @@ fn gen_ni(p: &mut Prng, id: String) -> FwCase {
     ncfg.allow_signal = false;
     ncfg.max_states = p.range(1, 4) as usize;
     ncfg.density = 60;
-    let n = p.range(2, 4) as usize;
-    let pos = p.below(n as u64) as usize;
-    let machines: Vec<Machine> = (0..n).map(|i| if i == pos { genm::gen_machine(p, &probe_cfg) } else { genm::gen_machine(p, &ncfg) }).collect();
+    // one case in twenty: many neighbours (past 32 / 64 machine indices), the probe at a high index and
+    // twins of the probe at the indices 32 and 64 below it, so that word-sized bit sets alias
+    let many = p.chance(1, 20);
+    let n = if many { *p.pick(&[33usize, 65, 66, 70, 130]) } else { p.range(2, 4) as usize };
+    let pos = if many { n - 1 - p.below(2) as usize } else { p.below(n as u64) as usize };
+    let probe = genm::gen_machine(p, &probe_cfg);
+    let machines: Vec<Machine> = (0..n)
+        .map(|i| {
+            if i == pos || (many && (i + 32 == pos || i + 64 == pos)) {
+                probe.clone()
+            } else {
+                genm::gen_machine(p, &ncfg)
+            }
+        })
+        .collect();
     let single = p.chance(1, 2);
     let wild = p.chance(1, 3);
     let calls = gen_history(p, n, single, 50, wild);
@@ -515,7 +527,18 @@ fn gen_wide(p: &mut Prng, id: String) -> FwCase {
     cfg.dist = DistMode::Const;
     cfg.max_states = 2;
     cfg.density = *p.pick(&[25, 40]);
-    let mut machines: Vec<Machine> = (0..n).map(|_| genm::gen_machine(p, &cfg)).collect();
+    let mut machines: Vec<Machine> = if p.chance(1, 2) {
+        // n copies of one deterministic machine: every machine does the same thing in the same call, so
+        // any state shared by machine indices that alias (mod 8, 32, 64, 256) shows at once
+        let mut c1 = cfg.clone();
+        c1.prob_one = true;
+        c1.density = 60;
+        c1.max_states = 3;
+        let m = genm::gen_machine(p, &c1);
+        (0..n).map(|_| m.clone()).collect()
+    } else {
+        (0..n).map(|_| genm::gen_machine(p, &cfg)).collect()
+    };
     // the long machine: a chain over NormalSent with an action in every state, a signal from the top
     let len = *p.pick(&[257usize, 300, 600]);
     let konst = |v: f64| Dist { dist: DistType::Uniform { low: v, high: v }, start: 0.0, max: 0.0 };
